@@ -542,7 +542,7 @@ func (r *Router) appendRoute(route *Route) {
 	// it's irregular param route
 	for _, method := range route.methods {
 		rs, has := r.irregularRoutes[method]
-		if has {
+		if !has {
 			rs = routes{}
 		}
 
